@@ -410,6 +410,23 @@ UnloadStep(S, a) ==
   LET c == S.cache[a.t] IN
   IF c.loaded /\ c.att = <<>> THEN Reply([S EXCEPT !.cache[a.t] = Unloaded], 0) ELSE Reply(S, 0)
 
+\* ---------------------------------------------------------------- Reload (harness composite): every attached session leaves,
+\* the idle timer unloads the topic, the same sessions subscribe again (in session order) -> the topic is rebuilt from the rows
+RECURSIVE ResubAll(_, _, _)
+ResubAll(S, t, ss) ==       \* ss: sequence of sessions
+  IF ss = <<>> THEN S
+  ELSE ResubAll(SubStep(S, [a |-> "Sub", s |-> Head(ss), t |-> t, mode |-> <<"-">>]).st, t, Tail(ss))
+RECURSIVE DetachAllOf(_, _, _)
+DetachAllOf(S, t, ss) == IF ss = <<>> THEN S ELSE DetachAllOf(Detach(S, t, Head(ss)), t, Tail(ss))
+
+ReloadStep(S, a) ==
+  LET t == a.t  c == S.cache[t] IN
+  IF ~c.loaded THEN Reply(S, 0)
+  ELSE LET ss == [i \in DOMAIN c.att |-> c.att[i].s]          \* att is kept in session order
+           S1 == DetachAllOf(S, t, ss)
+           S2 == [S1 EXCEPT !.cache[t] = Unloaded]
+       IN Reply(ResubAll(S2, t, ss), 0)
+
 \* ---------------------------------------------------------------- session disconnect: detach from everything
 DisconnectStep(S, a) ==
   LET s == a.s
@@ -434,9 +451,10 @@ Step(S, a) ==
     [] a.a = "Pub"        -> PubStep(S, a)
     [] a.a = "Note"       -> NoteStep(S, a)
     [] a.a = "Unload"     -> UnloadStep(S, a)
+    [] a.a = "Reload"     -> ReloadStep(S, a)
     [] a.a = "Disconnect" -> DisconnectStep(S, a)
     [] a.a = "Get"        -> GetStep(S, a)
     [] OTHER              -> Reply(S, 0)
 
-Modelled(a) == a.a \in {"DelMsg", "DelTopic", "SetDesc", "NewGrp", "Sub", "Leave", "SetSelf", "SetOther", "DelSub", "Pub", "Note", "Unload", "Disconnect", "Get"}
+Modelled(a) == a.a \in {"Reload", "DelMsg", "DelTopic", "SetDesc", "NewGrp", "Sub", "Leave", "SetSelf", "SetOther", "DelSub", "Pub", "Note", "Unload", "Disconnect", "Get"}
 =============================================================================
